@@ -9,12 +9,13 @@
    interval — its management call began before the execution ended, and no later call had returned before the
    execution began (C07's two visibility inequalities, theorems C07_updates_visible_afterwards / C07_no_future_version).
 
-   Probe rules always return and never fail, so the result map names exactly the rules that ran. *)
+   Probe rules always return (their body tag) and never fail, so the result map binds exactly the rules that ran,
+   each to its body tag. *)
 From Coq Require Import String List ZArith Bool.
 From GV Require Import Rules.KcModel Rules.KcCheck Pool.Model Engine.IR Engine.Hand Engine.Spec.
 Import ListNotations.
 
-Definition erule_of (r : rule) : erule := mkER (rname r) (rsal r) false true false.
+Definition erule_of (r : rule) : erule := mkER (rname r) (rsal r) false true false (Some (rbody r)).
 
 Record call_shape := mkShape {
   sh_entry : entry; sh_n : Z; sh_m : Z; sh_names : list string; sh_layers : list (list string) }.
@@ -25,7 +26,7 @@ Definition expected_result (sh : call_shape) (s : mgmt) : list (string * Z) :=
   let k := m_master s in
   let c := mkCfg (map erule_of (sorted k)) true (sh_n sh) (sh_m sh) (sh_names sh) (sh_layers sh) false None in
   match o_map (spec_outcome (sh_entry sh) c) with
-  | Some keys => flat_map (fun n => match alookup n (ents k) with Some r => [(n, rbody r)] | None => [] end) keys
+  | Some m => flat_map (fun kv => match snd kv with Some t => [(fst kv, t)] | None => [] end) m
   | None => []
   end.
 
